@@ -425,7 +425,7 @@ type corruptBase struct {
 
 const holdout = 6
 
-func buildCorruptBase(c *fw.Ctx, ti int, cfgName string) *corruptBase {
+func buildCorruptTree(c *fw.Ctx, ti int, cfgName string) *corruptBase {
 	w, r := newWorld(c, cfgName, "ctree", fmt.Sprint(ti))
 	spec := gen.TreeSpec{MainLen: r.Range(10, 22), Forks: 2, MaxForkLen: 4, MaxTx: 4, Uncles: true, ReuseTx: true}
 	t := gen.GrowTree(r, w, spec)
@@ -491,6 +491,12 @@ func buildCorruptBase(c *fw.Ctx, ti int, cfgName string) *corruptBase {
 		parent = b.Block
 	}
 	_ = sibs
+	return cb
+}
+
+// importBase builds the two stopped nodes (archive, pruning) holding the base blocks.
+func (cb *corruptBase) importBase(c *fw.Ctx) {
+	w := cb.w
 	mk := func(name string, cc *core.CacheConfig) *aquadb.MemDatabase {
 		rep := newReplica(c, name, w, cc)
 		for _, b := range cb.base {
@@ -503,7 +509,6 @@ func buildCorruptBase(c *fw.Ctx, ti int, cfgName string) *corruptBase {
 	}
 	cb.archive = mk("base-archive", &core.CacheConfig{Disabled: true})
 	cb.pruning = mk("base-pruning", nil)
-	return cb
 }
 
 type corruptInput struct {
@@ -568,9 +573,14 @@ func runCorrupt(c *fw.Ctx) {
 	for ti := 0; ti < nTrees; ti++ {
 		cfgName := configNames[(ti+c.Batch)%len(configNames)]
 		var cb *corruptBase
+		var cbt *corruptBase
+		if !build(c, fmt.Sprintf("ctree-%d-build", ti), map[string]interface{}{"config": cfgName, "tree": ti}, func() { cbt = buildCorruptTree(c, ti, cfgName) }) {
+			continue
+		}
 		c.Case(fmt.Sprintf("ctree-%d-base", ti), map[string]interface{}{"config": cfgName, "tree": ti}, func() {
 			mrand.Seed(int64(c.Seed)*7919 + int64(ti))
-			cb = buildCorruptBase(c, ti, cfgName)
+			cbt.importBase(c)
+			cb = cbt
 			for _, node := range []string{"archive", "pruning_restart"} {
 				for j := 0; j <= len(cb.H); j++ {
 					cb.image(c, node, j)
